@@ -5,7 +5,7 @@
    error travelling up -- never escapes), Fatal (FErr ..) (a pybtex error left the reader),
    Fatal FCrash (a foreign Python exception), Fatal FFuel (the model ran out of fuel). *)
 From Pybtex Require Import Base.Prelude Base.PyChar Base.PyStr Model.BibtexStr Model.Names
-  Model.Scanner Model.BibParser Model.BibParserOpt Proofs.Scanner Proofs.BibParser Proofs.BibStrict Proofs.BibStrictFirst Proofs.BibValues Proofs.BibEntry Proofs.BibFile Proofs.BibParserOpt Proofs.BibStrictOpt.
+  Model.Scanner Model.BibParser Model.BibParserOpt Proofs.Scanner Proofs.BibParser Proofs.BibStrict Proofs.BibStrictFirst Proofs.BibValues Proofs.BibEntry Proofs.BibFile Proofs.BibParserOpt Proofs.BibStrictOpt Proofs.BibStable Proofs.BibSuffix.
 
 (* TOTALITY: for every text whatsoever and every reporting mode, reading terminates within
    the model's fuel (|text|+1 per loop), raises no foreign exception (IndexError in
@@ -118,6 +118,38 @@ Theorem suffix_confinement_wellformed_partial : forall items fuel d st tail v' e
 Proof. exact file_loop3. Qed.
 Print Assumptions suffix_confinement_wellformed_partial.
 
+(* COMPOSITIONALITY, character level.  "The reading of p never touches the end of p"
+   ([untouched]: when it stops, unread text remains -- e.g. the blank or line end that
+   separates p from what follows -- and no 'premature end of file' was reported) is exactly
+   "p is never read past its own end".  Under that hypothesis, for EVERY text y, reading
+   p ++ y proceeds exactly as reading p and then goes on, on y, from the database and parser
+   state p left: nothing in y can alter what was read from p (prefix confinement for every
+   text), and p influences the reading of y only through that state (suffix confinement). *)
+Theorem compositionality : forall p y d s, parse_bib Capture p = Ret d s -> untouched s ->
+  exists n, 0 < n /\ parse_bib Capture (p ++ y) = bib_loop process n Capture d (app s y).
+Proof. exact Proofs.BibSuffix.compositionality. Qed.
+Print Assumptions compositionality.
+
+(* SUFFIX CONFINEMENT, character level: let p = x ++ bad ++ w be any text -- bad a corrupted
+   command, w the separator in front of what follows -- that is never read past its own end.
+   Then for every sequence of well-formed items after it (entries, @string, @preamble,
+   @comment, junk without '@') reading p followed by those items yields the database of p
+   extended by exactly what the items denote under the macro table p leaves, and the problems
+   of p followed by exactly theirs: the malformed command does not alter the entries after it.
+   What is NOT proved: the syntactic criterion (own braces / quotes / parentheses balance, not
+   ending in a NAME character or '@') implies the hypothesis; it does not without a separator
+   ('@a(k)@b{..}': the key pattern reads ')@b{..'), and for the harness's single-token
+   corruption classes it is established per instance by evaluation (Examples below) and by the
+   oracle, not by a general theorem. *)
+Theorem suffix_confinement : forall p d s items tail v' e,
+  parse_bib Capture p = Ret d s -> untouched s ->
+  wf_file (p_macros s) items -> no_at tail ->
+  denote_items2 (p_macros s) items (Proofs.BibFile.view d) = Some (v', e) ->
+  exists d' s', parse_bib Capture (p ++ file_text2 items tail) = Ret d' s'
+                /\ Proofs.BibFile.view d' = v' /\ p_errs s' = p_errs s ++ map data_err e.
+Proof. exact suffix_confinement_lemma. Qed.
+Print Assumptions suffix_confinement.
+
 (* ---- the same for the reader WITH OPTIONS (Model/BibParserOpt.v):
    Parser(wanted_entries=..., keyless_entries=..., macros=..., person_fields=...) -- for EVERY
    option set o: totality (no foreign exception -- e.g. no AttributeError from want_entry on a
@@ -161,6 +193,24 @@ Example ex_reads_with_errors :
 Proof. vm_compute. reflexivity. Qed.
 Example ex_strict_raises : parse_bib Strict ex_text = Fatal (FErr 5 1).
 Proof. vm_compute. reflexivity. Qed.
+Definition ex_untouched (t : string) : bool :=
+  match parse_bib Capture (s2l t) with Ret _ s => untouchedb s | _ => false end.
+(* single-token corruptions of '@book{k2, title = {The x}, year = 1999}' followed by a blank:
+   delete '=', duplicate ',', replace '=' by '#', truncate after the first field (balanced) *)
+Example ex_corruptions_untouched :
+  ex_untouched "@book{k1, t = {One}}
+@book{k2, title {The x}, year = 1999} "%string = true /\
+  ex_untouched "@book{k2, title = {The x}, , year = 1999} "%string = true /\
+  ex_untouched "@book{k2, title # {The x}, year = 1999} "%string = true /\
+  ex_untouched "@book{k2, title = {The x}, year} "%string = true /\
+  ex_untouched "@book{k2 k2, title = {The x}}	"%string = true.
+Proof. vm_compute. repeat split. Qed.
+(* ... whereas F25's shape, an unbalanced entry and a parenthesised key glued to ')' ARE read
+   past their end *)
+Example ex_touched :
+  ex_untouched "@book{k1} @ "%string = false /\ ex_untouched "@book{k2, title = {The x "%string = false /\
+  ex_untouched "@a(k)"%string = false.
+Proof. vm_compute. repeat split. Qed.
 Example ex_options :
   match parse_bib_o (mkOpts (Some [s2l "K2"]) true [] [s2l "Title"]) Capture (s2l "@string{a = und}@a{t = 1, title = {X and Y}}@b{k2}") with
   | Ret d s => (map (fun e => (en_key e, length (en_persons e))) (db_entries (d_db d)), map (fun e => e_cls e) (p_errs s))
